@@ -18,9 +18,13 @@ edits (answer ok | reject):
   setnd <path> <nuc> <v>   upd <path> [nuc..] [v..]   setnds <path> [nuc..] [v..]   scale <path> <f>
   addmass <path> <nuc> <m>   setmass <path> <nuc> <m>   setmf <path> [nuc..] [f..]
   addmasses <path> [nuc..] [m..]   setmasses <path> <traceDensity> [nuc..] [m..]
+  adjustmf <path> [adjustNames] [holdNames] <val>      adjustMassFrac (names = nucDir.getNuclideNames of the two specs)
+  adjustdict <path> [adjustNames] [holdNames] <val> -> [[nuc,frac],..] | reject    the dict handed to setMassFracs
 component density (material fallback on the empty composition):  compdensity <matDensity> <isVoid T|F> [nuc..] [nd..]
 derived shape:  derived <maxArea> <height> [sibVols] [sibAreas] -> [vol,area]|reject   derivedat <maxArea> [sibAreas]
                 hexmaxarea <sqrt3> <pitch>
+symmetry factor: hexsym <hasGridSymmetry T|F> <thirdPeriodic T|F> <i> <j> <upperEdgePresent T|F> -> 1|2|3
+arbitrary depth:  tree <tree> [nuc..] -> [vol, nd.., mass.., leafAtoms..]   tree := L;vol;psym;[nuc..];[nd..] | [sym,tree,..]
 stateless conversions:
   ndfrommasses <rho> [nuc..] [mf..] -> [nd..]    massfractions [nuc..] [nd..] -> [mf..]
   massdensity [nuc..] [nd..]   numberdensity <nuc> <mass> <vol> -> v|reject   massingrams <nuc> <vol> <nd>
@@ -76,6 +80,33 @@ def sortNat (l : List Nat) : List Nat := l.foldr insertSorted []
 
 def zipND (ns : List Nat) (vs : List Rat) : Option NDens :=
   if ns.length = vs.length then some (ns.zip vs) else none
+
+/-- tree := `L;vol;psym;[nuc..];[nd..]` | `[sym,tree,tree,..]` (any depth) -/
+partial def parseTree? (s : String) : Option Tree :=
+  if s.startsWith "[" then
+    match splitTop s with
+    | some (sym :: kids) => do
+      let sym ← parseRat? sym
+      let ks ← kids.mapM parseTree?
+      some (.node sym ks)
+    | _ => none
+  else
+    match s.splitOn ";" with
+    | ["L", v, ps, ns, ds] => do
+      let v ← parseRat? v
+      let ps ← parseRat? ps
+      let ns ← parseNatList? ns
+      let ds ← parseRatList? ds
+      let nd ← zipND ns ds
+      some (.leaf { vol := v, psym := ps, nd := NDens.update [] nd })
+    | _ => none
+
+/-- what a refused `adjustMassFrac` leaves behind: nothing changed when the dict computation raises, the applied
+prefix when `setMassFracs` raises -/
+def adjustPrefix {β : Type} (o : Ops β) (ph : Phys) (a : β) (adj hold : List Nat) (val : Rat) : Option β :=
+  match adjustDict o ph a adj hold val with
+  | none => some a
+  | some d => some (setMassFracsPrefix o ph a d)
 
 def step (s : St) (ws : List String) : St × String :=
   let ph := s.phys
@@ -260,6 +291,28 @@ def step (s : St) (ws : List String) : St × String :=
             | none => (s, "bad-op")
       | none => (s, "bad-op")
     | _, _ => (s, "bad-op")
+  | ["adjustmf", path, adj, hold, val] =>
+    match parseNatList? path, parseNatList? adj, parseNatList? hold, parseRat? val with
+    | some p, some adj, some hold, some val =>
+      let accepted := editAt ph s.core p
+        (fun c => adjustMassFrac (compOps ph) ph c adj hold val)
+        (fun o a => adjustMassFrac o ph a adj hold val)
+      match accepted with
+      | some c => ({ s with core := c }, "ok")
+      | none =>
+        -- refused: by the dict computation (nothing changed) or inside setMassFracs (prefix applied)
+        match editAt ph s.core p (fun c => adjustPrefix (compOps ph) ph c adj hold val)
+            (fun o a => adjustPrefix o ph a adj hold val) with
+        | some c => ({ s with core := c }, "reject")
+        | none => (s, "bad-op")
+    | _, _, _, _ => (s, "bad-op")
+  | ["adjustdict", path, adj, hold, val] =>
+    match parseNatList? path, parseNatList? adj, parseNatList? hold, parseRat? val with
+    | some p, some adj, some hold, some val =>
+      (s, queryAt ph s.core p (fun o a => match adjustDict o ph a adj hold val with
+        | none => "reject"
+        | some d => showList (fun q => "[" ++ toString q.1 ++ "," ++ showRat q.2 ++ "]") d))
+    | _, _, _, _ => (s, "bad-op")
   -- stateless conversions (densityTools)
   | ["ndfrommasses", rho, ns, fs] =>
     match parseRat? rho, parseNatList? ns, parseRatList? fs with
@@ -309,6 +362,16 @@ def step (s : St) (ws : List String) : St × String :=
     match parseRat? a, parseRatList? as with
     | some a, some as => (s, showRat (derivedAreaAt a as))
     | _, _ => (s, "bad-op")
+  | ["tree", t, ns] =>
+    match parseTree? t, parseNatList? ns with
+    | some t, some ns =>
+      (s, showList showRat (t.vol :: (ns.map (fun n => t.nd n) ++ ns.map (fun n => t.mass ph n)
+        ++ ns.map (fun n => t.leafAtoms n))))
+    | _, _ => (s, "bad-op")
+  | ["hexsym", g, t, i, j, u] =>
+    match parseBool? g, parseBool? t, parseInt? i, parseInt? j, parseBool? u with
+    | some g, some t, some i, some j, some u => (s, showRat (hexBlockSymmetryFactor g t i j u))
+    | _, _, _, _, _ => (s, "bad-op")
   | ["hexmaxarea", q, pch] =>
     match parseRat? q, parseRat? pch with
     | some q, some pch => (s, showRat (hexMaxArea q pch))
